@@ -73,7 +73,7 @@ def run(check, pool, Task):
     check.bounds.update({'rows': 'n <= 4 (quick) / n <= 5 (thorough), n = 0 included', 'dimensions': '1, 2, 3',
                          'page_size': 'every value in 1..n+1 (larger sizes give the same single-leaf tree)',
                          'coordinates': 'unbounded reals (comparison-only code), lo <= hi per dimension, query lo <= hi',
-                         'curve_order': 'arbitrary permutation instead of the Hilbert order: all permutations for n<=3 (n<=4 thorough), identity/reversal/rotation(+sampled) beyond'})
+                         'curve_order': 'arbitrary permutation instead of the Hilbert order, keys spread over 0..2^(d p)-1, p = 10 and the largest orders whose distances fit an int64 (d=1 p=62, d=2 p=31, d=3 p=21): all permutations for n<=3 (n<=4 thorough), identity/reversal/rotation(+sampled) beyond'})
     check.stubs += ['_distances_from_bounds -> arbitrary key permutation (the actual curve is C07/C08)',
                     '_NumbaRtree(...) jitclass constructor -> interpreted instance with the same fields']
     check.assumptions += ['rows with undefined bounds have all 2d entries NaN (as produced by a missing/empty geometry)',
@@ -85,6 +85,14 @@ def run(check, pool, Task):
         name += ' +2nd-query' if sq else ''
         tasks.append(Task(name, c03.explore, (n, ps), {'dims': dims, 'nan_rows': nanr, 'perm': pm, 'mode': mode, 'budget_s': cap - 30, 'second_query': sq},
                           timeout=cap, meta={'n': n, 'page_size': ps, 'dims': dims, 'nan_rows': nanr, 'perm': pm, 'mode': mode}))
+    # the largest curve orders whose distances fit an int64: the keys handed to the build are spread over 0..2^(d p)-1
+    big = [(3, 2, 2, False, [0, 1, 2], 31), (3, 1, 2, False, [2, 0, 1], 31), (3, 2, 3, False, [2, 1, 0], 21), (3, 4, 1, False, [1, 2, 0], 62)]
+    if check.tier == 'thorough':
+        big += [(4, 2, 2, True, [3, 1, 0, 2], 31), (4, 3, 3, False, [0, 2, 1, 3], 21)]
+    for (n, ps, dims, nanr, pm, p) in big:
+        tasks.append(Task(f"rtree d={dims} n={n} page={ps} nan={int(nanr)} perm={''.join(map(str, pm))} covers curve order p={p}", c03.explore, (n, ps),
+                          {'dims': dims, 'nan_rows': nanr, 'perm': pm, 'mode': 'covers', 'budget_s': cap - 30, 'p': p}, timeout=cap,
+                          meta={'n': n, 'page_size': ps, 'dims': dims, 'nan_rows': nanr, 'perm': pm, 'mode': 'covers', 'p': p}))
     tasks.sort(key=lambda t: -(t.meta['n'] * 10 + (5 - t.meta['page_size'])))
     res = pool(tasks)
     total_paths = 0
@@ -93,7 +101,7 @@ def run(check, pool, Task):
         m = t.meta
         total_paths += r.get('paths') or 0
         if r['status'] == 'violated':
-            ok, wit = c03.replay(r, m['n'], m['page_size'], m['dims'], m['nan_rows'], m['perm'], m['mode'])
+            ok, wit = c03.replay(r, m['n'], m['page_size'], m['dims'], m['nan_rows'], m['perm'], m['mode'], m.get('p', 10))
             if ok:
                 key = c03.classify(wit)
                 v = check.violation(key, f"R-tree {m['mode']} disagrees with the box oracle: got {wit['got']} expected {wit['expected']} "
